@@ -255,3 +255,18 @@ def run(ctx: Context) -> None:  # noqa: F811
 
     read_recheck(ctx, "C02.R9", "the response is delivered however the transport splits the byte stream across reads: when one segment carries the frames of two streams, the "
                                 "second caller finds its response in its queue instead of waiting for bytes that were already consumed")
+
+
+
+_core_run_r10 = run
+
+
+def run(ctx: Context) -> None:  # noqa: F811
+    _core_run_r10(ctx)
+    if ctx.rep._borrow is not None:
+        return
+    from . import support
+
+    ctx.rep.rule("C02.R10", "a truncated or failed body read ends with an exception, never with a short body: the body loops run inside `with Trace(...)`, "
+                            "and no context manager of the package can suppress the exception raised in its block")
+    support.exits_never_suppress(ctx, "C02.R10")
